@@ -396,7 +396,7 @@ func (c *Ctx) rulesR4nochange() {
 			} else if !g.Pol {
 				continue
 			}
-			valueTree(g.Cond, 8, func(v ssa.Value) {
+			note := func(v ssa.Value) {
 				fa, ok := v.(*ssa.FieldAddr)
 				if !ok {
 					return
@@ -405,7 +405,20 @@ func (c *Ctx) rulesR4nochange() {
 					uses = true
 					mentioned[fieldOf(fa).Name()] = true
 				}
-			})
+			}
+			valueTree(g.Cond, 8, note)
+			// the comparison extracted into a bool predicate of the server
+			if call, ok := g.Cond.(*ssa.Call); ok && g.Pol {
+				if h := call.Call.StaticCallee(); h != nil && len(h.Blocks) > 0 && h.Pkg == f.Pkg {
+					for _, hb := range h.Blocks {
+						for _, hi := range hb.Instrs {
+							if hv, ok := hi.(ssa.Value); ok {
+								note(hv)
+							}
+						}
+					}
+				}
+			}
 		}
 		if !uses {
 			continue
@@ -1332,7 +1345,7 @@ func (c *Ctx) hostedFns(root *ssa.Function) []*ssa.Function {
 // dominate the call sites through which its (single-caller, private) function
 // is reached from root.
 func (c *Ctx) guardsHosted(ins ssa.Instruction, root *ssa.Function) []Guard {
-	gs := guardsOf(ins.Block())
+	gs := guardsOfDeep(ins.Block())
 	f := topFunc(ins.Parent())
 	if ins.Parent() != f {
 		// a closure: the guards at its creation site do not bind its execution
